@@ -106,6 +106,7 @@ Inductive oobs :=
 | OCb (c : callback)
 | OInfo (i : infocb)
 | OSessionEnd
+| OAt (t : Z)           (* what follows happened at virtual time t (a deadline fired) *)
 | OMissingAnswer        (* the model asked the environment something the trace has no answer for *)
 | OOutOfFuel.
 
@@ -736,9 +737,8 @@ Definition enable_disable (cfg : ocfg) (s : ostate) (enable : bool) (seq : N) (h
 
 Definition objects_allowed (fn : N) : bool :=
   negb ((fn =? fn_confirm) || (fn =? fn_cold_restart) || (fn =? fn_warm_restart)
-        || (fn =? fn_delay_measure) || (fn =? fn_record_time)
-        || (fn =? 16) || (fn =? 17) || (fn =? 18) || (fn =? 19) (* application control codes *)
-        || (fn =? 15) (* initialize data *) || (fn =? 22) (* assign class: allowed *) && false).
+        || (fn =? 15) (* initialize data *) || (fn =? 19) (* save configuration *)
+        || (fn =? fn_delay_measure) || (fn =? fn_record_time)).
 
 Definition count_of_one (g v : N) (value : N) : list N := [g; v; 7; 1; lo8 value; hi8 value].
 
@@ -1125,9 +1125,10 @@ Fixpoint advance (fuel : nat) (cfg : ocfg) (s : ostate) (target : Z) : ostate * 
       match next_deadline cfg s with
       | Some d =>
           if (d <=? target)%Z then
-            let '(s1, o1) := fire_deadline cfg (upd_now s (Z.max d (s_now s))) in
+            let t := Z.max d (s_now s) in
+            let '(s1, o1) := fire_deadline cfg (upd_now s t) in
             let '(s2, o2) := advance f cfg s1 target in
-            (s2, o1 ++ o2)
+            (s2, OAt t :: o1 ++ o2)
           else (upd_now s target, [])
       | None => (upd_now s target, [])
       end
@@ -1200,7 +1201,7 @@ Definition ostep (cfg : ocfg) (s : ostate) (ev : oevent) (answers : list answer)
     | EDisconnect =>
         let s1 := upd_pending (upd_control (session_reset s0) CIdle) None in
         let '(s2, o2) := idle_loop 8 cfg s1 in
-        let '(s3, o3) := advance 64 cfg s2 (s_now s2 + settle_ms) in (s3, OSessionEnd :: o2 ++ o3)
+        let '(s3, o3) := advance 64 cfg s2 (s_now s2 + settle_ms) in (s3, ODb DbReset :: OSessionEnd :: o2 ++ o3)
     end in
   (s1, o).
 
